@@ -242,6 +242,29 @@ def build(tier="quick", seed=0):
         pack.add(Obligation(name, lambda tier, name=name, iso=iso: prove_paths(name, th_ts_unrepresentable(iso), lambda p: (p.value == ("raised", ["first"]), f"timestamp without a UTC form: {p.value[0]}, read back {p.value[1]}")),
                             replay=lambda w, iso=iso: {"call": "c19_ts_unrepresentable", "args": {"iso": iso}}, functions=FU, mode="boundary values"))
 
+    # the container goes to standard output: close() alone (no with-block, no flush) still hands every buffered record to the stream (which stays open)
+    def th_stdout():
+        D = it.call(RD, ["c19/t", [("string", "s"), ("varint", "n")]], {})
+        out_text, out_bin = AbsFile(it, mode="w", name="<stdout>"), AbsFile(it, mode="wb", name="<stdout.buffer>")
+        out_text.buffer = out_bin
+        L.module_models["sys"].stdout = out_text
+        try:
+            w = it.call(av.g["AvroWriter"], ["-"], {})
+            for i in range(3):
+                it.call(it.getattr_(w, "write"), [it.call(D, [], {"s": f"r{i}", "n": i})], {})
+            it.call(it.getattr_(w, "close"), [], {})
+        finally:
+            del L.module_models["sys"].stdout
+        try:
+            rd = it.call(av.g["AvroReader"], [AbsFile(it, out_bin.content())], {})
+            back = [it.unbase(o.attrs["s"]) for o in it.iterate(rd)]
+        except PyRaise as e:
+            back = f"reading raised {e.cls_name}"
+        return back, out_bin.closed
+
+    pack.add(Obligation("C19.stdout[three records, close() without flush]", lambda tier: prove_paths("C19.stdout[three records, close() without flush]", th_stdout, lambda p: (p.value == (["r0", "r1", "r2"], False), f"an Avro container written to standard output and closed holds {p.value[0]} (stdout closed: {p.value[1]})")),
+                        replay=lambda w: {"call": "c19_stdout", "args": {}}, functions=FU, mode="concrete history"))
+
     def th_mixed(same_name):
         def th():
             A = it.call(RD, ["c19/a", [("varint", "n")]], {})
